@@ -42,8 +42,10 @@ type Options struct {
 	IgnoreFiles           []string
 	NoDefaultIgnore       bool
 	BannerFile            string
-	ProductionPump        bool // use the production processOutbox (never terminates: only outside bubbles)
-	Keepalive             bool // run the production idle/keep-alive handler (10 s ticker) for the life of the world
+	NewsDateFormat        string // config.yaml NewsDateFormat ("" = default)
+	NewsDelimiter         string // config.yaml NewsDelimiter: the post template ("" = default)
+	ProductionPump        bool   // use the production processOutbox (never terminates: only outside bubbles)
+	Keepalive             bool   // run the production idle/keep-alive handler (10 s ticker) for the life of the world
 }
 
 type World struct {
@@ -223,7 +225,8 @@ func (w *World) build() error {
 	srv, err := hotline.NewServer(
 		hotline.WithLogger(slog.New(w.Log)),
 		hotline.WithConfig(hotline.Config{Name: name, Description: "d", FileRoot: w.FileRoot,
-			PreserveResourceForks: w.opt.PreserveResourceForks, IgnoreFiles: ignore, BannerFile: w.opt.BannerFile}),
+			PreserveResourceForks: w.opt.PreserveResourceForks, IgnoreFiles: ignore, BannerFile: w.opt.BannerFile,
+			NewsDateFormat: w.opt.NewsDateFormat, NewsDelimiter: w.opt.NewsDelimiter}),
 	)
 	if err != nil {
 		return err
